@@ -41,6 +41,11 @@ EXTENDS SQLSem
 CONSTANTS LoopBound,     \* iterations allowed per loop instance (3)
           StepFuel       \* op executions allowed to the machine before its outcome is "hang"
 
+\* Scopes on the machine's stack before its outcome is "hang": terminating runs of the bounded grammar
+\* nest at most 5 blocks and leak at most one scope per loop iteration (<= 81), so a deeper stack
+\* only arises in runs that restart the body for ever.
+StackFuel == 150
+
 Lim == 10000
 OVF == [t |-> "o", v |-> 0]
 IsO(v) == v.t = "o"
@@ -449,7 +454,7 @@ StepM(m, ops, p, q) ==
 RECURSIVE RunLoop(_, _, _, _)
 RunLoop(m, ops, p, q) ==
   IF m.err # "none" \/ m.excl \/ m.pc >= Len(ops) THEN m
-  ELSE IF m.steps >= StepFuel THEN [m EXCEPT !.err = "hang"]
+  ELSE IF m.steps >= StepFuel \/ Len(m.st) > StackFuel THEN [m EXCEPT !.err = "hang"]
   ELSE RunLoop([StepM(m, ops, p, q) EXCEPT !.steps = m.steps + 1], ops, p, q)
 
 RunM(p, q) ==
